@@ -56,6 +56,9 @@ pub struct SockScript {
     pub events: Vec<(Ev, bool)>,
     pub rng_seed: u64,
     pub latency_us: u64,
+    /// fault plan on socket send indices
+    #[serde(default)]
+    pub plan: Vec<(usize, Fate)>,
 }
 
 pub fn sock_addr(i: u8) -> SocketAddr {
@@ -166,7 +169,7 @@ pub fn run(script: &SockScript) -> SockLog {
 }
 
 async fn run_async(script: &SockScript) -> SockLog {
-    let net = SimNet::new(&[], PathCfg { latency_us: script.latency_us, blackhole_above: None, emsgsize_above: None }, Triggers::default());
+    let net = SimNet::new(&script.plan, PathCfg { latency_us: script.latency_us, blackhole_above: None, emsgsize_above: None }, Triggers::default());
     let net_task = tokio::spawn(net.clone().run());
     let mut socks: Vec<Arc<UtpSocket<SimTransport, VEnv>>> = vec![];
     for (i, c) in script.cfgs.iter().enumerate() {
@@ -209,13 +212,26 @@ async fn run_async(script: &SockScript) -> SockLog {
                             let mut msg = tok.to_be_bytes().to_vec();
                             msg.extend((0..32u64).map(|i| coded(i, (idx as u8).wrapping_mul(17).wrapping_add(3))));
                             let w = stream.write_all(&msg).await;
-                            let mut g = sh.lock();
-                            g.connects[idx].done_us = Some(t);
-                            g.connects[idx].done = match w {
-                                Ok(()) => Done::Ok { remote: target, token: Some(tok), payload_ok: true },
-                                Err(e) => Done::Err(format!("connected, then write failed: {e}")),
-                            };
-                            g.open.push(('c', idx, stream));
+                            {
+                                let mut g = sh.lock();
+                                g.connects[idx].done_us = Some(t);
+                                g.connects[idx].done = match &w {
+                                    Ok(()) => Done::Ok { remote: target, token: Some(tok), payload_ok: true },
+                                    Err(e) => Done::Err(format!("connected, then write failed: {e}")),
+                                };
+                            }
+                            if w.is_ok() && target.ip().to_string().starts_with("10.0.1.") {
+                                // a real acceptor answers with 24 bytes coded with the connector's salt + 1
+                                let mut back = [0u8; 24];
+                                let rr = tokio::time::timeout(Duration::from_secs(3), stream.read_exact(&mut back)).await;
+                                if let Ok(Ok(_)) = rr {
+                                    let ok = (0..24u64).all(|i| back[i as usize] == coded(i, (idx as u8).wrapping_mul(17).wrapping_add(4)));
+                                    if !ok {
+                                        sh.lock().connects[idx].done = Done::Ok { remote: target, token: Some(tok), payload_ok: false };
+                                    }
+                                }
+                            }
+                            sh.lock().open.push(('c', idx, stream));
                         }
                         Err(e) => {
                             let mut g = sh.lock();
@@ -258,14 +274,15 @@ async fn run_async(script: &SockScript) -> SockLog {
                             // a real connector sends 40 bytes; a fake peer never does
                             let mut buf = [0u8; 40];
                             let rr = tokio::time::timeout(Duration::from_secs(3), stream.read_exact(&mut buf)).await;
-                            let mut g = sh.lock();
                             if let Ok(Ok(_)) = rr {
                                 let tok = u64::from_be_bytes(buf[..8].try_into().unwrap());
                                 let cidx = ((tok.wrapping_sub(0xC0DE_0000_0000)) / 0x0101) as usize;
                                 let ok = (0..32u64).all(|i| buf[8 + i as usize] == coded(i, (cidx as u8).wrapping_mul(17).wrapping_add(3)));
-                                g.accepts[idx].done = Done::Ok { remote, token: Some(tok), payload_ok: ok };
+                                sh.lock().accepts[idx].done = Done::Ok { remote, token: Some(tok), payload_ok: ok };
+                                let back: Vec<u8> = (0..24u64).map(|i| coded(i, (cidx as u8).wrapping_mul(17).wrapping_add(4))).collect();
+                                let _ = stream.write_all(&back).await;
                             }
-                            g.open.push(('a', idx, stream));
+                            sh.lock().open.push(('a', idx, stream));
                         }
                         Err(e) => {
                             let mut g = sh.lock();
